@@ -2,7 +2,9 @@
 docstrings; every case is driven through Environment.call_filter and through a
 rendered template, in a sync and in an async environment (async generators as
 input where the filter has an async variant); arguments are fingerprinted
-before/after every drive."""
+before/after every drive, and every result is searched for mutable containers
+it shares with the arguments (identity), then modified in place to see whether
+an argument moves."""
 from __future__ import annotations
 
 import itertools
@@ -14,7 +16,8 @@ from vt.model import c22_spec as SP
 PID = "C22"
 LEVEL = "exploration"
 TECHNIQUE = ("contract monitor over the results of the real filters: per-filter executable "
-             "specification + sync/async/template agreement + argument fingerprints")
+             "specification + sync/async/template agreement + argument fingerprints + "
+             "result/argument aliasing (identity walk and modify-the-result probe)")
 RULE = ("cases = (filter, subject kind, elements, positional/keyword arguments); an enumerated "
         "edge grid (batch/slice: every length 0-12 x count 1-5 x fill; unique/sort/groupby: every "
         "sequence of length<=4 over a small mixed-case alphabet x flags) plus seeded random cases "
@@ -24,7 +27,12 @@ RULE = ("cases = (filter, subject kind, elements, positional/keyword arguments);
         "list/tuple/generator/iter-only/str/dict subjects through call_filter and a template "
         "(|list, for-loop or direct form; arguments as variables or inline literals) in a sync "
         "and an async environment (async generator / async-iterable subjects for the 12 filters "
-        "with async variants). distinct = distinct (filter, kind, elements, args, kwargs) tuples "
+        "with async variants). After every drive the mutable containers (list/dict/set/object) "
+        "reachable from the result are matched by identity against those reachable from the "
+        "subject and the arguments: list and sort must return a new list, an async drive may "
+        "share no container its sync counterpart (same path: call_filter / template) does not "
+        "share, and after the harness appends to / overwrites every result-owned container the "
+        "argument fingerprints must be unchanged. distinct = distinct (filter, kind, elements, args, kwargs) tuples "
         "with >= 2 elements")
 LEVEL_TEXT = ("held on K generated executions of the real filters covering the enumerated edge "
               "grid completely and a seeded random sample of the argument space; no claim beyond "
@@ -35,6 +43,10 @@ ASSUMPTIONS = [
     "case fold; keys inside one case are mutually comparable and hashable",
     "an input that the docstring does not cover (first/min/max of an empty input, ties in "
     "min/max) is only checked for sync/async/template agreement",
+    "aliasing: only list and sort are required outright to return a new list (list(value) / "
+    "sorted(value)); for every other filter the sync variant is the reference for which "
+    "containers of the arguments may appear inside the result (items passed through, the start "
+    "value of an empty sum, ...), and the async variant may not share more",
 ]
 NSHARDS = {"quick": 16, "thorough": 16}
 BUDGET_S = {"quick": 12, "thorough": 600}
@@ -46,12 +58,16 @@ FLOORS = {
                            "calls:atmpl": 4000, "oracle_evaluations": 16000,
                            "async_iterable_subjects": 1200, "lazy_sync_subjects": 4000,
                            "fingerprints_compared": 35000, "grid_cases": 1000,
+                           "alias_checks": 14000, "alias_result_pokes": 9000,
+                           "alias_list_subject_list_result": 2200,
                            "filters_exercised_min_cases": 120}},
     "thorough": {"evaluations": 600000, "distinct": 100000,
                  "counters": {"calls:call": 150000, "calls:tmpl": 150000, "calls:acall": 150000,
                               "calls:atmpl": 150000, "oracle_evaluations": 600000,
                               "async_iterable_subjects": 50000, "lazy_sync_subjects": 150000,
                               "fingerprints_compared": 1200000, "grid_cases": 1000,
+                              "alias_checks": 550000, "alias_result_pokes": 350000,
+                              "alias_list_subject_list_result": 90000,
                               "filters_exercised_min_cases": 6000}},
 }
 N_RANDOM = {"quick": 2000, "thorough": 80000}
@@ -529,6 +545,7 @@ def run_case(ctx, rig, case, count=True):
     ref_kwargs = {k: F.fp(v) for k, v in F.dec(case["kwargs"]).items()}
     desc = None
     sync_norm = None
+    alias_ref = {}      # 'call' / 'tmpl' -> aliasing of the sync result
     for path in PATHS:
         out, data, items, args, kwargs, S, kind = drive(rig, case, path)
         ctx.ev()
@@ -595,7 +612,64 @@ def run_case(ctx, rig, case, count=True):
                               f"{a!r:.300}", case)
         if count:
             ctx.count("fingerprints_compared", 1 + len(args) + len(kwargs))
+        # ---- result does not alias the arguments
+        if out.ok and norm == sync_norm:
+            names = arg_names(name, args, kwargs)
+            roots = [("value", data)] + [(f"arg:{names[i]}", a) for i, a in enumerate(args)] \
+                + [(f"arg:{k}", a) for k, a in kwargs.items()]
+            argmap = F.container_map(roots)
+            pairs, fresh = F.alias_signature(out.value, argmap)
+            if count:
+                ctx.count("alias_checks")
+                ctx.count("alias_shared_containers_seen", len(pairs))
+                if kind == "list" and isinstance(out.value, list):
+                    ctx.count("alias_list_subject_list_result")
+            top = [a for r, a in pairs if r == ""]
+            if name in SP.NEW_LIST_RESULT and top:
+                # list(): "Convert the value into a list" / sorted(): a new list
+                ctx.violation(f"alias:{mode}:{name}/result-is-argument:{_root(top[0])}",
+                              f"[{path}] {desc}: the returned list IS the caller's "
+                              f"{top[0]} object, not a new list", case)
+            base = alias_ref.get(path[-4:])
+            if not is_async:
+                alias_ref[path[-4:]] = pairs
+            elif base is not None and not set(pairs) <= set(base):
+                extra = sorted(set(pairs) - set(base))
+                r, a = extra[0]
+                what = f"result-is-argument:{_root(a)}" if r == "" else \
+                    f"result-shares-container-of:{_root(a)}"
+                ctx.violation(f"alias:async:{name}/{what}",
+                              f"[{path}] {desc}: in the async environment the result{r} is the "
+                              f"caller's object {a}; the sync variant returns a copy there "
+                              f"(sync shares only {base[:4]})", case)
+            # a caller that modifies what it got back must not modify what it passed in
+            if F.poke(fresh):
+                if count:
+                    ctx.count("alias_result_pokes")
+                changed = None
+                if F.fp(data) != ref_data:
+                    changed = "value"
+                for i, a in enumerate(args):
+                    if F.fp(a) != ref_args[i]:
+                        changed = changed or names[i]
+                for k, a in kwargs.items():
+                    if F.fp(a) != ref_kwargs[k]:
+                        changed = changed or k
+                if changed:
+                    ctx.violation(f"alias:{mode}:{name}/modifying-result-changes-arg:{changed}",
+                                  f"[{path}] {desc}: after appending to / overwriting the "
+                                  f"containers of the returned value the argument {changed} is "
+                                  f"{(data if changed == 'value' else '...')!r:.200}", case)
     return
+
+
+def _root(argpath):
+    """'arg:start[0]' -> 'start', 'value[3].tags' -> 'value'."""
+    for i, ch in enumerate(argpath):
+        if ch in "[.":
+            argpath = argpath[:i]
+            break
+    return argpath[4:] if argpath.startswith("arg:") else argpath
 
 
 def nontrivial(case):
